@@ -15,5 +15,13 @@ claim("C12",
   "Static table extraction: checkBinaryExpr/checkUnaryExpr are partially evaluated over {string,number,bool,error}^2 x 13 operators and compared cell by cell, both directions, with the documented table; accepted cells are cross-checked against the evaluator's leaves (no panic, promised result type); checkIf/checkReturn/checkBreak/checkContinue/checkLoop are evaluated over their finite inputs; both definition generators are shown to call the checker on every statement and to fail on the first PTERROR; statement/expression dispatch completeness by MakeInterface-producer vs type-switch-case comparison.",
   "Trusts the documentation table as specification; flow-sensitive typing is excluded by the property; dynamic type of variables equals checked type only under C09.R3.",
   "decision-table extraction by partial evaluation on SSA + type-switch completeness", "DESIGN.md section 5 C12")
-for pid in ["C01","C02","C03","C04","C05","C06","C07","C08","C09","C10","C14","C15","C16","C17","C18","C20"]:
+claim("C17",
+  "Static analysis of the rendering code: reaching-definition analysis of every type assertion (an assertion whose every reaching MakeInterface has another dynamic type always panics), extraction of the key->field table of Match.MarshalJSON/Range.MarshalJSON with the control dependence of each entry (replacement only under HasValue()), type closure of everything passed to json.Marshal (JSON-safe, through the MakeInterface producers of interface-typed elements), every MarshalJSON returns encoding/json output, Json and FormattedJson marshal the receiver.",
+  "Trusts encoding/json (validity, escaping); does not decide value round-trips.",
+  "SSA reaching definitions + control dependence + type-closure analysis", "DESIGN.md section 5 C17")
+claim("C18",
+  "Static analysis of package main: constant evaluation of os.OpenFile flags/permissions, a who-may-write-stdout analysis (call-graph closure of fmt.Print*/os.Stdout writers) combined with path feasibility in main.main (os.Exit/log.Fatal as terminators, transitive control-dependence literals for contradictory flag tests) around the JSON-printing statements, exits non-zero and never after RunFiles, replace-mode table by partial evaluation, documented flag set.",
+  "Does not decide the process-level behaviour of the built binary; assumes flag.PrintDefaults/log/println go to stderr; the -files path parser's string algorithm is not decided (C20).",
+  "call-graph effect analysis + control dependence + constant evaluation", "DESIGN.md section 5 C18")
+for pid in ["C01","C02","C03","C04","C05","C06","C07","C08","C09","C10","C14","C15","C16","C20"]:
     NA[pid] = "check under construction in this session (rules designed in DESIGN.md section 5, not yet implemented in the checker); not claimed until its rules run"
